@@ -132,10 +132,11 @@ def main():
         raise MachineryError('no history emitted')
     if a.replay_case:
         case = a.replay_case['case']
-        if 'history' in case:
-            cells = [gen.lit('err' if t in STRICT else 'text', t) for t in case['history']]
-            raise MachineryError('replay of a history: re-run the check; histories are enumerated deterministically')
-        docs.validate_sessions(run, [sess_damaged(case['seed'], explore='valid_plus_stopper_suffix' in a.replay_case.get('classes', []))], relevant=docs.relevant_for(run.pid))
+        if 'cells' in case:
+            logs = [imphist.replay_history(case['header'], case['cells'], fresh_reference=True)]
+            imphist.validate(run, logs, [{}])
+        else:
+            docs.validate_sessions(run, docs.replay_sessions(a.replay_case), relevant=docs.relevant_for(run.pid))
         return run.finish()
     import multiprocessing as mp
     with mp.get_context('fork').Pool(16) as pool:
